@@ -293,8 +293,8 @@ func ext2Run(t *testing.T, out *vhOut, rng *rand.Rand, beh int, steps []ext2Step
 					ev.Foreign++ // not a JSON POST of the documented envelope
 				}
 				ev.Shape = shape
-				ev.Taken, ev.IDs, _ = w.project(set)
-				_, _, f := w.project(set)
+				var f int
+				ev.Taken, ev.IDs, f = w.project(set)
 				ev.Foreign += f
 				taken[st.R] = ev.Taken
 			case err := <-ch:
